@@ -1,7 +1,7 @@
 (* C05 — automatic discovery never reports a signature the function cannot honour
    (the part that is logic: the walker's flags and what discovery builds from them). *)
-From Sigtools.Model Require Import Base Bind Algebra Visitor Discover Exec.
-From Sigtools.Proofs Require Import SmallModel Basics Discover Exec.
+From Sigtools.Model Require Import Base Bind Algebra Visitor Discover Exec ExecNested.
+From Sigtools.Proofs Require Import SmallModel Basics Discover Exec MergeSoundN ForwardsSound DiscoverSoundWalk DiscoverSound ExecNested.
 
 (* use_varargs / use_varkwargs is emitted only when the star argument of the
    call IS the wrapper's own star-parameter marker (object identity) *)
@@ -86,3 +86,38 @@ Theorem C05_nested_refuted :
     ~ flag_sound (nth (ev_site e) fls dflags) e.
 Proof. exact flags_sound_nested_refuted. Qed.
 Print Assumptions C05_nested_refuted.
+
+Open Scope nat_scope.
+(* ---- END TO END for the flat statement grammar (Proofs/DiscoverSound*.v): what the walker records per call site,
+   and: a call accepted by the discovered signature makes every executed forwarding site whose written stars are
+   flagged `use` hand its callee a call that the callee's signature accepts, with the caller's untouched objects.
+   Nested scopes holding forwarding calls (Model/ExecNested.v, Proofs/ExecNested.v): flag soundness for every
+   invocation time ---- *)
+Theorem C05_walker_records : forall va vk : BinNums.N, va <> vk -> forall l : list Exec.stmt, block_ok va vk l = true -> exists recs : list Visitor.callrec, Visitor.visit_function nil nil (Some va) (Some vk) (Exec.compile_block va vk l) = Some recs /\ List.map fl recs = snd (Exec.absint_block l (true, true)) /\ List.Forall2 rec_ok (sites_block l) recs.
+Proof. exact @DiscoverSoundWalk.walker_records. Qed.
+Print Assumptions C05_walker_records.
+
+Theorem C05_end_to_end : forall (va vk : BinNums.N) (l : list Exec.stmt) (env : BinNums.N -> Base.sigT) (recs : list Visitor.callrec) (sigs : list Base.sigT) (r : Base.sigT) (c : Bind.call), va <> vk -> block_ok va vk l = true -> (forall x : BinNums.N, Algebra.valid_sig (Base.params (env x)) = true) -> Visitor.visit_function nil nil (Some va) (Some vk) (Exec.compile_block va vk l) = Some recs -> Discover.forward_sigs (own_sig va vk) (calls_of env recs) = Some sigs -> Algebra.merge sigs = Base.Ok r -> Bind.accepts (Base.params r) c = true -> (Bind.kws c = nil \/ Bind.npos c = 0) \/ Roles.role_consistent (List.map Base.params sigs) = true /\ Bind.noncolliding c (Base.params r) (List.map Base.params sigs) = true -> forall (j : nat) (cal : BinNums.N) (nlit : nat) (kw : list BinNums.N) (pa pk : bool) (rc : Visitor.callrec), List.nth_error (DiscoverSoundWalk.sites_block l) j = Some (Some (cal, nlit, kw, pa, pk)) -> List.nth_error recs j = Some rc -> (pa || pk)%bool = true -> Visitor.c_use_varargs rc = pa -> Visitor.c_use_varkwargs rc = pk -> List.NoDup kw -> Bind.disjointb (Bind.kws c) kw = true -> (forall sj : Base.sigT, Algebra.forwards (own_sig va vk) (env cal) nlit kw false false pa pk false = Base.Ok sj -> Bind.noncolliding c (Base.params sj) (Base.params (own_sig va vk) :: Base.params (env cal) :: nil) = true) -> Bind.accepts (Base.params (env cal)) {| Bind.npos := nlit + (if pa then Bind.npos c else 0); Bind.kws := kw ++ (if pk then Bind.kws c else nil) |} = true /\ (forall (fuel : nat) (st' : Exec.sem) (evs : list Exec.event) (e : Exec.event), List.In (st', evs) (Exec.exec_block fuel l 0 {| Exec.pr_a := true; Exec.pr_k := true |}) -> List.In e evs -> Exec.ev_site e = j -> Exec.ev_a e = (if pa then Some true else None) /\ Exec.ev_k e = (if pk then Some true else None)).
+Proof. exact @DiscoverSound.C05_end_to_end. Qed.
+Print Assumptions C05_end_to_end.
+
+Theorem C05_end_to_end_discover : forall (va vk : BinNums.N) (l : list Exec.stmt) (env : BinNums.N -> Base.sigT) (plain : Base.sigT) (recs : list Visitor.callrec) (c : Bind.call), va <> vk -> block_ok va vk l = true -> (forall x : BinNums.N, Algebra.valid_sig (Base.params (env x)) = true) -> Visitor.visit_function nil nil (Some va) (Some vk) (Exec.compile_block va vk l) = Some recs -> let r := Discover.discover (own_sig va vk) plain true (calls_of env recs) in r <> plain -> Bind.accepts (Base.params r) c = true -> Bind.kws c = nil \/ Bind.npos c = 0 -> forall (j : nat) (cal : BinNums.N) (nlit : nat) (kw : list BinNums.N) (pa pk : bool) (rc : Visitor.callrec), List.nth_error (DiscoverSoundWalk.sites_block l) j = Some (Some (cal, nlit, kw, pa, pk)) -> List.nth_error recs j = Some rc -> (pa || pk)%bool = true -> Visitor.c_use_varargs rc = pa -> Visitor.c_use_varkwargs rc = pk -> List.NoDup kw -> Bind.disjointb (Bind.kws c) kw = true -> (forall sj : Base.sigT, Algebra.forwards (own_sig va vk) (env cal) nlit kw false false pa pk false = Base.Ok sj -> Bind.noncolliding c (Base.params sj) (Base.params (own_sig va vk) :: Base.params (env cal) :: nil) = true) -> Bind.accepts (Base.params (env cal)) {| Bind.npos := nlit + (if pa then Bind.npos c else 0); Bind.kws := kw ++ (if pk then Bind.kws c else nil) |} = true /\ (forall (fuel : nat) (st' : Exec.sem) (evs : list Exec.event) (e : Exec.event), List.In (st', evs) (Exec.exec_block fuel l 0 {| Exec.pr_a := true; Exec.pr_k := true |}) -> List.In e evs -> Exec.ev_site e = j -> Exec.ev_a e = (if pa then Some true else None) /\ Exec.ev_k e = (if pk then Some true else None)).
+Proof. exact @DiscoverSound.C05_end_to_end_discover. Qed.
+Print Assumptions C05_end_to_end_discover.
+
+Theorem C05_forwards_valid : forall (o i : Base.sigT) (n : nat) (names0 : list Base.name) (ha hk uva uvk : bool) (r : Base.sigT), Algebra.valid_sig (Base.params i) = true -> Algebra.forwards o i n names0 ha hk uva uvk false = Base.Ok r -> Algebra.valid_sig (Base.params r) = true.
+Proof. exact @DiscoverSound.forwards_valid. Qed.
+Print Assumptions C05_forwards_valid.
+
+Theorem C05_flags_sound_nested : forall (va vk : N) (l : list nstmt) (fls : list flags), va <> vk -> nblock_ok va vk l = true -> visitor_flags_n va vk l = Some fls -> forall (fuel : nat) (st' : sem) (evs : list event) (e : event), In (st', evs) (exec_n fuel (mcalls_block l) l 0 0 [] {| pr_a := true; pr_k := true |}) -> In e evs -> (ev_site e < length fls)%nat /\ flag_sound (nth (ev_site e) fls dflags) e.
+Proof. exact @ExecNested.flags_sound_nested. Qed.
+Print Assumptions C05_flags_sound_nested.
+
+Theorem C05_visitor_flags_n_absint : forall (va vk : N) (l : list nstmt), va <> vk -> nblock_ok va vk l = true -> visitor_flags_n va vk l = Some (absflags_n l).
+Proof. exact @ExecNested.visitor_flags_n_absint. Qed.
+Print Assumptions C05_visitor_flags_n_absint.
+
+Theorem C05_run_n_total : forall l : list nstmt, run_n l <> [].
+Proof. exact @ExecNested.run_n_total. Qed.
+Print Assumptions C05_run_n_total.
+
